@@ -193,8 +193,10 @@ func tailFile(p string, n int) string {
 		return ""
 	}
 	lines := strings.Split(string(b), "\n")
-	if len(lines) > n {
-		lines = lines[len(lines)-n:]
+	if len(lines) > n+80 {
+		// the reason of a crash is at the top (panic / fatal error / signal line and the first stack), the rest is the
+		// dump of all goroutines: keep both ends
+		lines = append(append(append([]string(nil), lines[:80]...), "[...]"), lines[len(lines)-n:]...)
 	}
 	return strings.Join(lines, "\n")
 }
@@ -235,6 +237,11 @@ func main() {
 	}
 	if pc.Engine == "ordersim" {
 		chunkRuns = 5
+	}
+	if pc.Engine == "chainsim" || prop == "C09" || prop == "C12" {
+		// the node stack holds native (wasmtime) memory and per-run scratch that only the process exit gives back:
+		// worker processes died after about 350 runs each in long batches
+		chunkRuns = 150
 	}
 	start := time.Now()
 	cleanStaleScratch()
@@ -725,7 +732,7 @@ func panicSignature(tail string) string {
 func runSlot(bin string, base sim.WorkerCfg, scratch string, gmp int, timeout time.Duration) (outs []*sim.WorkerOut, crashes []crashRec, trouble string) {
 	start := 0
 	began := time.Now()
-	for attempt := 0; attempt < 400; attempt++ {
+	for attempt := 0; attempt < 4000; attempt++ {
 		cfg := base
 		cfg.StartIter = start
 		if chunkRuns > 0 {
